@@ -69,6 +69,12 @@ impl Header for BootInformationHeader {
         self.total_size as usize - mem::size_of::<Self>()
     }
 
+    fn total_size(&self) -> usize {
+        // Must not be derived from `payload_len()`: a (corrupt) total size
+        // smaller than the header has to be reported as error, not as panic.
+        self.total_size as usize
+    }
+
     fn set_size(&mut self, total_size: usize) {
         self.total_size = total_size as u32;
     }
